@@ -1663,7 +1663,36 @@ func (s *syncer) lockstep() *outcome {
 			}
 		}
 	}
+	if o := s.txHeights(); o != nil {
+		return o
+	}
 	return s.nodeStoreExact(end)
+}
+
+// txHeights: every transaction of the blocks the node fetched below the sync
+// point (and of those it processed afterwards) is recorded at the height of
+// its block, as on the source node - the Ledger contract answers from these
+// records.
+func (s *syncer) txHeights() *outcome {
+	tip := s.bc.BlockHeight()
+	for i := uint32(1); i <= tip && int(i) <= len(s.src.h.P.Blocks); i++ {
+		for _, tx := range s.src.h.P.Blocks[i-1].Transactions {
+			_, hs, errS := s.src.h.P.BC.GetTransaction(tx.Hash())
+			_, hd, errD := s.bc.GetTransaction(tx.Hash())
+			if errS != nil {
+				continue
+			}
+			if errD != nil {
+				// blocks below the retained window are not fetched
+				continue
+			}
+			s.run.Obs("sync_transaction_heights_compared", 1)
+			if hs != hd {
+				return &outcome{"sync:transaction-recorded-at-another-height", fmt.Sprintf("transaction %s of block %d: the synchronised node has it at height %d (sync point %d)", tx.Hash().StringLE(), hs, hd, s.p)}
+			}
+		}
+	}
+	return nil
 }
 
 // nodeStoreExact: once the synchronised node has processed the blocks after
